@@ -39,6 +39,7 @@ func (c10) Gen(r *rand.Rand, tier string, run int) *core.Case {
 	// and while the senders are at work (what is shared between endpoints -
 	// buffers, pools - must not suffer)
 	c.Params["doomed"] = []int{0, 0, 2, 5}[r.IntN(4)]
+	c.Params["transport"] = []int{0, 0, 1, 2, 3, 4}[r.IntN(6)]
 	sizes := []int{0, 0, 1, 3, 27, 28, 29, 100, 255, 600, 600, 5000, 20000, 70000}
 	if c.Net.ReadMode == "byte" || c.Net.ReadMode == "tiny" || c.Net.Capacity == 16 {
 		sizes = sizes[:11]
@@ -81,8 +82,20 @@ type c10sent struct {
 	err     error
 }
 
+// c10listener adapts a simulated listener to net.Listener.
+type c10listener struct{ l *simnet.Listener }
+
+func (l c10listener) Accept() (net.Stream, error) {
+	c, err := l.l.Accept()
+	if err != nil {
+		return nil, err
+	}
+	return net.ConnStream(c), nil
+}
+func (l c10listener) Close() error { return l.l.Close() }
+
 type c10state struct {
-	a, b     *simnet.Conn
+	a        *simnet.Conn
 	handlers []*c10handler
 	mu       sync.Mutex
 	sent     map[int][]c10sent
@@ -95,8 +108,36 @@ func (c10) Run(c *core.Case, env *core.Env) {
 	total := len(c.Ops)
 	st.total = total
 	zzsim.SetNode("receiver")
-	a, b := simnet.BufferedPair("sender", "receiver")
-	st.a, st.b = a, b
+	// transport: 0 a connected pair handed to ConnEndPoint; 1-3 the address
+	// forms of Listen/DialEndPoint (tcp, unix, tcps on the dialing side);
+	// 4 the synchronous in-memory pipe (every Write waits for its reader)
+	transport := c.P("transport", 0)
+	addr := []string{"", "tcp://receiver:7", "unix:///run/receiver.sock", "tcps://receiver:7"}
+	var a, b *simnet.Conn
+	var accepted net.Stream
+	var lst net.Listener
+	switch transport {
+	case 1, 2:
+		l, err := net.Listen(addr[transport])
+		if err != nil {
+			env.Note("listen: %v", err)
+			return
+		}
+		lst = l
+	case 3:
+		// listening with TLS needs a certificate (real key generation); the
+		// accepting side is opened on the simulated network directly
+		l, err := simnet.Listen("tls+tcp", "receiver:7")
+		if err != nil {
+			env.Note("listen: %v", err)
+			return
+		}
+		lst = c10listener{l}
+	case 4:
+		a, b = simnet.Pipe()
+	default:
+		a, b = simnet.BufferedPair("sender", "receiver")
+	}
 	hr := rand.New(rand.NewPCG(uint64(c.P("hseed", 1)), 7))
 	senders := c.P("senders", 2)
 	st.handlers = append(st.handlers, &c10handler{kind: "all", queue: make(chan *net.Message, total+1)})
@@ -123,17 +164,49 @@ func (c10) Run(c *core.Case, env *core.Env) {
 	if hr.IntN(3) == 0 {
 		st.handlers = append(st.handlers, &c10handler{kind: "parity", arg: uint32(hr.IntN(2)), small: true, queue: make(chan *net.Message, 1)})
 	}
-	net.EndPointFinalizer(net.ConnStream(b), func(e net.EndPoint) {
+	install := func(e net.EndPoint) {
 		for _, h := range st.handlers {
 			h := h
 			e.MakeHandler(func(hdr *net.Header) (bool, bool) {
 				return h.match(hdr.Type, hdr.Service, hdr.ID), true
 			}, h.queue, nil)
 		}
-	})
-	zzsim.SetNode("sender")
-	ea := net.ConnEndPoint(a)
-	zzsim.SetNode("harness")
+	}
+	var ea net.EndPoint
+	if lst != nil {
+		ready := make(chan struct{})
+		go func() {
+			defer close(ready)
+			s, err := lst.Accept()
+			if err != nil {
+				env.Note("accept: %v", err)
+				return
+			}
+			accepted = s
+			net.EndPointFinalizer(s, install)
+		}()
+		zzsim.SetNode("sender")
+		e, err := net.DialEndPoint(addr[transport])
+		zzsim.SetNode("harness")
+		if err != nil {
+			env.Note("dial: %v", err)
+			return
+		}
+		<-ready
+		if accepted == nil {
+			return
+		}
+		ea = e
+		a = env.NW.Conns()[0]
+		env.Probe(fmt.Sprintf("transport-%s", addr[transport][:4]))
+	} else {
+		net.EndPointFinalizer(net.ConnStream(b), install)
+		zzsim.SetNode("sender")
+		ea = net.ConnEndPoint(a)
+		zzsim.SetNode("harness")
+		env.Probe(fmt.Sprintf("transport-pair-%d", transport))
+	}
+	st.a = a
 	by := map[int][]core.Op{}
 	var actors []int
 	for _, op := range c.Ops {
@@ -202,6 +275,10 @@ func (c10) Check(c *core.Case, env *core.Env, res zzsim.Result, v *core.Verdict)
 			bad("send-error", "Send failed on a healthy connection: %s", h)
 		}
 		v.OpsDone++
+	}
+	if st.a == nil {
+		bad("connect", "the connection could not be set up on a fault-free network: %v", env.Notes())
+		return
 	}
 	// 1. the wire carries a clean sequence of frames: the messages sent, each once
 	wire, _ := st.a.Sent()
